@@ -43,6 +43,18 @@ fn rc_of(r: Result<MZStatus, miniz_oxide::MZError>) -> i32 {
     }
 }
 
+/// the Rust flush mode that corresponds to a C flush value, written out here (not taken from the
+/// crate's own conversion): MZ_PARTIAL_FLUSH is documented as "currently treated as Sync"
+fn mzflush_of(v: i32) -> Option<MZFlush> {
+    match v {
+        0 => Some(MZFlush::None),
+        1 | 2 => Some(MZFlush::Sync),
+        3 => Some(MZFlush::Full),
+        4 => Some(MZFlush::Finish),
+        _ => None,
+    }
+}
+
 fn al(end: bool) -> Align {
     if end {
         Align::End
@@ -179,7 +191,7 @@ fn deflate_phase(s: &mut mz_stream, r: &mut CompressorOxide, x: &[u8], steps: &[
         *calls += 1;
         // Rust side
         let mut ro = vec![0u8; osz];
-        let rr = deflate(r, &x[ipos..ipos + take], &mut ro, MZFlush::new(fl).map_err(|_| Violation::new("c17:harness", "flush"))?);
+        let rr = deflate(r, &x[ipos..ipos + take], &mut ro, mzflush_of(fl).ok_or_else(|| Violation::new("c17:harness", "flush"))?);
         vensure!(rc == rc_of(rr.status) && din == rr.bytes_consumed && dout == rr.bytes_written, "c17:deflate-differs-from-rust", "call #{calls}: mz_deflate(flush {fl}, avail_in {take}, avail_out {osz}) -> ({rc}, in {din}, out {dout}) but stream::deflate -> ({:?}, in {}, out {})", rr.status, rr.bytes_consumed, rr.bytes_written);
         vensure!(gout.as_slice()[..dout] == ro[..dout], "c17:deflate-bytes-differ", "call #{calls}: bytes written by mz_deflate differ from stream::deflate");
         vensure!(s.adler as u32 == r.adler32(), "c17:deflate-adler", "stream.adler {:#x} vs CompressorOxide::adler32 {:#x}", s.adler, r.adler32());
@@ -211,11 +223,22 @@ fn c_deflate(data: &Recipe, level: i32, raw: bool, strategy: i32, pre: Option<&[
         // the Rust counterpart is CompressorOxide::reset()
         deflate_phase(&mut s, &mut r, &x, pre, None, end_align, &mut calls, &mut pending_small)?;
         let used = s.total_in;
-        // SAFETY: initialised stream
-        let rc = guard(|| unsafe { mz_deflateReset(&mut s) }).map_err(|pm| Violation::new(panic_sig("c17:mz_deflateReset", &pm), format!("unwound: {pm}")))?;
-        vensure!(rc == 0 && s.total_in == 0 && s.total_out == 0, "c17:deflateReset", "mz_deflateReset returned {rc}, totals ({}, {})", s.total_in, s.total_out);
-        r.reset();
-        cx.class(&format!("deflate-history:reset-after-{}-calls,{}", pre.len(), if used == 0 { "no-input-consumed" } else { "input-consumed" }));
+        if finish_out % 3 == 2 {
+            // instead of a reset: mz_deflateEnd, then mz_deflateInit2 on the same object with OTHER
+            // parameters first and the case's parameters second (the second Init meets a live state);
+            // the Rust counterpart of each Init is a new compressor
+            // SAFETY: initialised stream object throughout
+            let (e, i1, i2) = unsafe { (mz_deflateEnd(&mut s), mz_deflateInit2(&mut s, (level + 4).rem_euclid(11), 8, -wb, 9, 0), mz_deflateInit2(&mut s, level, 8, wb, 9, strategy)) };
+            vensure!(e == 0 && i1 == 0 && i2 == 0 && s.total_in == 0 && s.total_out == 0, "c17:deflate-reinit", "End/Init2/Init2 on a used stream object returned ({e}, {i1}, {i2}), totals ({}, {})", s.total_in, s.total_out);
+            r = CompressorOxide::new(create_comp_flags_from_zip_params(level, wb, strategy) | deflate_flags::TDEFL_COMPUTE_ADLER32);
+            cx.class("deflate-history:end+init2(other)+init2");
+        } else {
+            // SAFETY: initialised stream
+            let rc = guard(|| unsafe { mz_deflateReset(&mut s) }).map_err(|pm| Violation::new(panic_sig("c17:mz_deflateReset", &pm), format!("unwound: {pm}")))?;
+            vensure!(rc == 0 && s.total_in == 0 && s.total_out == 0, "c17:deflateReset", "mz_deflateReset returned {rc}, totals ({}, {})", s.total_in, s.total_out);
+            r.reset();
+            cx.class(&format!("deflate-history:reset-after-{}-calls,{}", pre.len(), if used == 0 { "no-input-consumed" } else { "input-consumed" }));
+        }
     }
     deflate_phase(&mut s, &mut r, &x, steps, Some(finish_out), end_align, &mut calls, &mut pending_small)?;
     // SAFETY: initialised stream
@@ -255,7 +278,7 @@ fn c_inflate(input: &AnyInput, steps: &[(u32, u32, i8)], end_align: bool, cx: &m
         let (din, dout) = check_accounting("mz_inflate", before, &s)?;
         calls += 1;
         let mut ro = vec![0u8; osz];
-        let rr = inflate(&mut r, &data[ipos..ipos + take], &mut ro, MZFlush::new(f as i32).map_err(|_| Violation::new("c17:harness", "flush"))?);
+        let rr = inflate(&mut r, &data[ipos..ipos + take], &mut ro, mzflush_of(f as i32).ok_or_else(|| Violation::new("c17:harness", "flush"))?);
         vensure!(rc == rc_of(rr.status) && din == rr.bytes_consumed && dout == rr.bytes_written, "c17:inflate-differs-from-rust", "call #{calls}: mz_inflate -> ({rc}, in {din}, out {dout}) but stream::inflate -> ({:?}, in {}, out {})", rr.status, rr.bytes_consumed, rr.bytes_written);
         vensure!(gout.as_slice()[..dout] == ro[..dout], "c17:inflate-bytes-differ", "call #{calls}: bytes written by mz_inflate differ from stream::inflate");
         if dout == osz && rc == 0 {
@@ -574,7 +597,7 @@ fn c_tdefl(data: &Recipe, level: i32, zlib: bool, strategy: i32, mode: u8, chunk
                 let take = if last { x.len() - pos } else { (chunks[i] as usize).min(x.len() - pos) };
                 i += 1;
                 let g = GuardBuf::from_slice(&x[pos..pos + take], al(end_align));
-                let (cfl, rfl) = if last { (tdefl_flush::TDEFL_FINISH, TDEFLFlush::Finish) } else if take % 5 == 4 { (tdefl_flush::TDEFL_SYNC_FLUSH, TDEFLFlush::Sync) } else { (tdefl_flush::TDEFL_NO_FLUSH, TDEFLFlush::None) };
+                let (cfl, rfl) = if last { (tdefl_flush::TDEFL_FINISH, TDEFLFlush::Finish) } else if take % 5 == 4 { (tdefl_flush::TDEFL_SYNC_FLUSH, TDEFLFlush::Sync) } else if take % 5 == 3 { (tdefl_flush::TDEFL_FULL_FLUSH, TDEFLFlush::Full) } else { (tdefl_flush::TDEFL_NO_FLUSH, TDEFLFlush::None) };
                 let (st, cin, rs, rin);
                 if final_cb {
                     let before = sink.data.len();
@@ -639,9 +662,10 @@ fn c_tdefl(data: &Recipe, level: i32, zlib: bool, strategy: i32, mode: u8, chunk
                 let mut isz = take;
                 let mut osz2 = osz;
                 // SAFETY: guard buffers; sizes by reference as the C API wants
-                let st = unsafe { tdefl_compress(c.as_mut(), g.ptr() as *const c_void, Some(&mut isz), go.ptr() as *mut c_void, Some(&mut osz2), if last { tdefl_flush::TDEFL_FINISH } else { tdefl_flush::TDEFL_NO_FLUSH }) } as i32;
+                let (cfl, rfl) = if last { (tdefl_flush::TDEFL_FINISH, TDEFLFlush::Finish) } else if take % 7 == 6 { (tdefl_flush::TDEFL_SYNC_FLUSH, TDEFLFlush::Sync) } else if take % 7 == 5 { (tdefl_flush::TDEFL_FULL_FLUSH, TDEFLFlush::Full) } else { (tdefl_flush::TDEFL_NO_FLUSH, TDEFLFlush::None) };
+                let st = unsafe { tdefl_compress(c.as_mut(), g.ptr() as *const c_void, Some(&mut isz), go.ptr() as *mut c_void, Some(&mut osz2), cfl) } as i32;
                 let mut ro = vec![0u8; osz];
-                let (rs, rin, rout) = compress(&mut r, &x[pos..pos + take], &mut ro, if last { TDEFLFlush::Finish } else { TDEFLFlush::None });
+                let (rs, rin, rout) = compress(&mut r, &x[pos..pos + take], &mut ro, rfl);
                 vensure!(st == rs as i32 && isz == rin && osz2 == rout && go.as_slice()[..rout] == ro[..rout], "c17:tdefl_compress-differs", "tdefl_compress -> ({st}, {isz}, {osz2}); core::compress -> ({}, {rin}, {rout})", rs as i32);
                 // SAFETY: live compressor
                 let (ps, pa) = unsafe { (tdefl_get_prev_return_status(c.as_mut()) as i32, tdefl_get_adler32(c.as_mut())) };
